@@ -66,6 +66,8 @@ def gen_value(rng, mfs, json_ok):
     if r < 0.64:
         return {'f': rng.choice(('0.0', '-0.0', '1.5', '-2.5', 'inf', '-inf', 'nan', '1e308', '5e-324', '1e16', '9007199254740993.0', '0.1'))}, 'float'
     if r < 0.70:
+        if not json_ok and rng.random() < 0.3:
+            return {'ba': bytes(rng.getrandbits(8) for _ in range(rng.choice((0, 3, mfs + 1 if mfs < 100 else 40)))).hex()}, 'bytearray'
         return rng.choice((None, True, False)), 'const'
     if r < 0.85:
         inner = [1, 'x', None, {'f': '-0.0'}, {'f': 'nan'}]
@@ -84,6 +86,8 @@ def gen_value(rng, mfs, json_ok):
 def dec(spec):
     if isinstance(spec, dict) and 'txt' in spec:
         return ''.join(chr(c) for c in spec['txt'])
+    if isinstance(spec, dict) and 'ba' in spec:
+        return bytearray(bytes.fromhex(spec['ba']))
     if isinstance(spec, dict) and 'l' in spec:
         return [dec(x) for x in spec['l']]
     if isinstance(spec, dict) and 't' in spec:
